@@ -119,6 +119,7 @@ class Env:
             second = ('z3-4.8.12', 'cvc5-1.0')
             self.ctx = Q.Ctx(mir_text, prep.repo(), self.oracle, os.path.join(WORK, 'smt'), second=second, tier=rep.tier)
             self.ctx.second_timeout = 20 if rep.tier == 'quick' else 600
+            self.ctx.max_steps = 2_000_000 if rep.tier == 'quick' else 16_000_000
             for (pr, obl, _k) in load_known()[0]:
                 if pr == rep.prop:
                     self.ctx.known_counts[obl] = self.ctx.known_counts.get(obl, 0) + 1
@@ -126,6 +127,56 @@ class Env:
 
     def eval(self, ops):
         return prep.native_eval(self.native, ops)
+
+
+class ObResult:
+    """what a worker process returns for one obligation (z3 objects do not cross process boundaries)"""
+
+    def __init__(self, d, qid, result, models, extra, classes_seen, note=''):
+        self._d, self.qid, self.result, self.extra, self.classes_seen = d, qid, result, extra, classes_seen
+
+        class _V:
+            pass
+        self.verdict = _V()
+        self.verdict.models = models
+        self.verdict.note = note
+
+    def as_dict(self):
+        return self._d
+
+
+def _par_worker(job):
+    fname, args, kw = job
+    try:
+        o = getattr(Q, fname)(_PAR_CTX[0], *args, **kw)
+        d = o.as_dict()
+        models = list(o.verdict.models) if o.verdict is not None else []
+        return (d, o.qid, o.result, models, {k: v for k, v in o.extra.items()}, dict(o.classes_seen), (o.verdict.note if o.verdict is not None else ''))
+    except Exception as e:     # a crash of the encoder is an inconclusive obligation, never a pass
+        import traceback
+        return ({'id': fname, 'title': '', 'result': 'inconclusive', 'inconclusive_reason': 'worker crashed: %s' % traceback.format_exc()[-400:]},
+                fname, 'inconclusive', [], {}, {}, '')
+
+
+_PAR_CTX = [None]
+
+
+def par_map(env, jobs, workers=None):
+    """decide independent obligations in parallel worker processes (fork: the MIR, the oracle and the code are shared copy-on-write);
+    jobs: [(name of a Q function, args, kwargs)] -> [ObResult] in the same order"""
+    import multiprocessing as mp
+    workers = workers or int(os.environ.get('VERIF_WORKERS', '12'))
+    if len(jobs) <= 1 or workers <= 1:
+        return [ObResult(*_par_worker_local(env, j)) for j in jobs]
+    _PAR_CTX[0] = env.ctx
+    with mp.get_context('fork').Pool(min(workers, len(jobs))) as pool:
+        res = pool.map(_par_worker, jobs, chunksize=1)
+    return [ObResult(*r) for r in res]
+
+
+def _par_worker_local(env, job):
+    _PAR_CTX[0] = env.ctx
+    return _par_worker(job)
 
 
 def ob_add(rep, ob):
@@ -458,10 +509,12 @@ def check_c03(rep):
                      'else \\W ...; else \\S ...; else c itself -- with D, W, S the REGEX CRATE\'s classes; so the token\'s class always '
                      'contains c.  The enclosing closure maps a string of n code points to the concatenation of the per-code-point '
                      'tokens (each code point independently).  The feature gate is on whenever F is non-empty.')
-    rep.outside = ['the outer loop over graphemes in convert_to_char_classes (data-dependent trip count)',
-                   'strings of more than %d code points through the enclosing closure' % (2 if rep.tier == 'quick' else 3),
-                   'class tokens surviving trie / minimisation / elimination as opaque symbols',
-                   'rejection of strings of a different length (whole pipeline)', 'combination with other options']
+    rep.statement += ('  END TO END on small inputs: the whole of build() (RegExp::from and the printer, from MIR) with conversion options on 1-2 '
+                      'test cases of 1-2 printable ASCII characters: the printed pattern, parsed back, accepts a string x -- every scalar value at '
+                      'every position, every length -- if and only if x arises from some test case by the documented per-character generalisation '
+                      '(%s).' % ('6 flag sets' if rep.tier == 'quick' else 'all 63 non-empty flag sets for one test case of one character; 15 more for larger inputs'))
+    rep.outside = ['strings of more than %d code points through the enclosing closure' % (2 if rep.tier == 'quick' else 3),
+                   'end to end: test cases outside printable ASCII, more or longer test cases than the bound', 'combination with other options']
     env = Env(rep)
     known, _ = load_known()
     obs = [ob_add(rep, Q.q03a(env.ctx, 1)), ob_add(rep, Q.q03b(env.ctx))]
@@ -493,9 +546,72 @@ def check_c03(rep):
                          {'inputs': {'flags': flags}, 'observed': got}, got[0].get('ok') is False)
             continue
         replay_ladder_models(env, rep, known, o)
+    # end to end: the whole of build() with conversion options on small inputs
+    ALL6 = tuple(SETTING_OF_FLAG)
+    P_, A_ = 'printable', 'alnum'
+    specs = [((1,), ('digits',), P_), ((1,), ALL6, P_), ((1, 1), ('digits',), P_), ((1, 1), ('words', 'non_words'), P_),
+             ((2,), ('digits', 'spaces', 'non_words'), P_), ((2, 1), ('digits',), A_)]
+    if rep.tier == 'thorough':
+        import itertools
+        specs = [((1,), tuple(k for k, on in zip(SETTING_OF_FLAG, bits) if on), P_) for bits in itertools.product((False, True), repeat=6) if any(bits)]
+        specs += [((1, 1), (k,), P_) for k in SETTING_OF_FLAG] + [((1, 1), ALL6, P_), ((2,), ALL6, P_), ((2,), ('digits', 'spaces', 'non_words'), P_),
+                                                                  ((2, 1), ('digits',), A_), ((2, 1), ('words', 'non_words'), A_), ((2, 2), ('digits',), A_),
+                                                                  ((2, 1), ALL6, A_), ((2, 2), ('spaces', 'non_spaces'), A_), ((3, 1), ('digits',), A_),
+                                                                  ((2, 1, 1), ('digits',), A_)]
+    run_conversion_obligations(rep, env, known, specs)
+
+
+def replay_conversion(env, cases, flagset, x):
+    """end to end on the real build: build() with the conversion options, then the real regex crate on the candidate string x;
+    the reference is the documented precedence evaluated with the regex crate's own \\d \\w \\s"""
+    settings = {k: True for k in flagset}
+    got = env.eval([{'op': 'build', 'cases': cases, 'settings': settings}])
+    pat = got[0].get('ok')
+    if pat is None:
+        return True, 'build() panics: %s' % str(got[0])[:200], {}
+    chars = sorted(set(c for t in cases for c in t) | set(x))
+    ops = [{'op': 'regex_is_match', 'pattern': CLASS_PAT[w], 'text': [c]} for c in chars for w in 'dws']
+    r = env.eval(ops)
+    cls = {c: tuple(r[3 * i + k].get('ok') for k in range(3)) for i, c in enumerate(chars)}
+    flags = [k in flagset for k in SETTING_OF_FLAG]
+
+    def stands_for(c, xc):
+        D, W, S = cls[c]
+        Dx, Wx, Sx = cls[xc]
+        if flags[0] and D: return Dx
+        if flags[1] and W: return Wx
+        if flags[2] and S: return Sx
+        if flags[3] and not D: return not Dx
+        if flags[4] and not W: return not Wx
+        if flags[5] and not S: return not Sx
+        return c == xc
+    expected = any(len(t) == len(x) and all(stands_for(c, xc) for c, xc in zip(t, x)) for t in cases)
+    full = [94, 40, 63, 58] + list(pat[1:-1]) + [41, 36] if pat and pat[0] == 94 and pat[-1] == 36 else pat
+    m = env.eval([{'op': 'regex_find', 'pattern': full, 'text': x}])[0].get('ok')
+    accepted = isinstance(m, list) and m[0] == 0 and m[1] == m[2]
+    what = 'build(%s, %s) = %s %s %s, which the documented generalisation %s' % (
+        [''.join(map(chr, t)) for t in cases], ','.join(sorted(flagset)), json.dumps(''.join(map(chr, pat))),
+        'accepts' if accepted else 'rejects', json.dumps(''.join(map(chr, x))), 'contains' if expected else 'does not contain')
+    return accepted != expected, what, {'pattern': pat, 'accepted': accepted, 'expected': expected}
+
+
+def run_conversion_obligations(rep, env, known, specs):
+    for lens, flagset, dom in specs:
+        o = ob_add(rep, Q.q03t(env.ctx, lens, flagset, dom))
+        if o.result != 'sat':
+            continue
+        for m in o.verdict.models:
+            cases = [[m['s%d_%d' % (i, j)] for j in range(n)] for i, n in enumerate(lens)]
+            x = [m['x%d' % i] for i in range(m['xlen'])]
+            bad, what, obs = replay_conversion(env, cases, flagset, x)
+            key = 'cases=%s,x=%s,%s' % ('|'.join('+'.join(u(c) for c in t) for t in cases), '+'.join(u(c) for c in x), ','.join(sorted(flagset)))
+            classify(rep, known, 'Q03t', key, what, {'inputs': {'convert': cases, 'flagset': list(flagset), 'x': x}, 'observed': obs}, bad)
 
 
 def replay_c03(env, rec):
+    if 'convert' in rec['inputs']:
+        bad, what, _ = replay_conversion(env, rec['inputs']['convert'], rec['inputs']['flagset'], rec['inputs']['x'])
+        return bad, what
     if 'cps' not in rec['inputs']:
         got = env.eval([{'op': 'class_feature_enabled', 'flags': rec['inputs']['flags']}])
         return got[0].get('ok') is False, 'feature gate: %s' % got[0]
@@ -1148,7 +1264,7 @@ def replay_cluster(env, s_, minrep, minlen, clause):
 def check_cluster(rep, clause):
     env = Env(rep)
     known, _ = load_known()
-    ns = (2, 3, 4, 5) if rep.tier == 'quick' else (2, 3, 4, 5, 6, 7, 8)
+    ns = (2, 3, 4, 5) if rep.tier == 'quick' else (2, 3, 4, 5, 6, 7)
     for n in ns:
         o = Q.q05r(env.ctx, n, clause)
         if o.result == 'sat':
@@ -1221,7 +1337,7 @@ def check_c05(rep):
                      'GraphemeCluster::convert_repetitions (collect_repeated_substrings, create_ranges_of_repetitions, coalesce_repetitions, '
                      'replace_graphemes_with_repetitions and the recursion into nested units, all executed from MIR) returns graphemes whose '
                      'expansion -- every unit repeated its {k} times, nested renderings expanded -- is exactly the original grapheme sequence; '
-                     'counts are exact (min == max) and no panic is reachable.' % (5 if rep.tier == 'quick' else 8))
+                     'counts are exact (min == max) and no panic is reachable.' % (5 if rep.tier == 'quick' else 7))
     rep.outside = ['merging of adjacent repeat counts into ranges while inserting into the trie (Dfa::find_next_state), label matching in the '
                    'minimiser: the known over-matching ["aab","aaac"] -> a{2,3}[bc] (DESIGN 6, F5) lives there and is NOT seen by this check',
                    'printing of {n} / {m,n} and the group around multi-character units (Display for Grapheme)',
@@ -1268,7 +1384,7 @@ def check_c13(rep):
     rep.statement = ('kernel "thresholds inside one test case": for every cluster of n <= %d one-code-point graphemes and all positive '
                      'thresholds, every quantified unit that GraphemeCluster::convert_repetitions produces, at any nesting depth, has a '
                      'count strictly greater than minimum_repetitions and spans at least minimum_substring_length graphemes; counts are exact.'
-                     % (5 if rep.tier == 'quick' else 8))
+                     % (5 if rep.tier == 'quick' else 7))
     rep.outside = ['"without repetition conversion the pattern contains no quantifier" (the gate is one if in RegExp::grapheme_clusters; the printed '
                    'pattern is fmt code)', 'ranges {m,n} created by trie-edge merging in Dfa::find_next_state and their printing',
                    'graphemes of more than one code point; clusters longer than the bound']
@@ -1533,12 +1649,101 @@ def check_c06(rep):
     run_text_obligations(rep, env, known, specs)
 
 
+def canonical_shape(cases):
+    names = {}
+    return '|'.join(''.join(names.setdefault(c, chr(ord('a') + len(names))) for c in s_) or '""' for s_ in cases)
+
+
+def replay_search(env, cases, settings):
+    """the search clause of C08 on the real build: build() with these settings, then Regex::find on every test case"""
+    got = env.eval([{'op': 'build', 'cases': cases, 'settings': settings}])
+    pat = got[0].get('ok')
+    if pat is None:
+        return True, 'build() panics: %s' % str(got[0])[:200], {}
+    found = env.eval([{'op': 'regex_find', 'pattern': pat, 'text': c} for c in cases])
+    partial = []
+    for c, r in zip(cases, found):
+        span = r.get('ok')
+        if not (isinstance(span, list) and span[0] == 0 and span[1] == span[2]):
+            partial.append((c, span))
+    what = 'build(%s, %s) = %s' % ([''.join(map(chr, s_)) for s_ in cases], ','.join(sorted(k for k, v in settings.items() if v)), json.dumps(''.join(map(chr, pat))))
+    if partial:
+        what += '; searching %s finds %s' % (json.dumps(''.join(map(chr, partial[0][0]))),
+                                             'nothing' if partial[0][1] is None else 'only bytes %d..%d of %d' % tuple(partial[0][1]))
+    return bool(partial), what, {'pattern': pat, 'partial': [[c, sp] for c, sp in partial]}
+
+
+SEARCH_SMAP = {'no_start_anchor': 'no_start_anchor', 'no_end_anchor': 'no_end_anchor', 'capture': 'capture_groups', 'repetitions': 'repetitions'}
+
+
+def run_search_obligations(rep, env, known, e2e_specs, unit_specs):
+    """C08 clause 2.  e2e_specs: [(lens, settings)] through the whole of build(); unit_specs: [(skeleton, settings, second_ast)] through the
+    self-check block of RegExp::from with the automaton stages replaced by an arbitrary expression of that shape"""
+    e2e_res = par_map(env, [('q08s', (lens, settings), {}) for lens, settings in e2e_specs]) if rep.tier == 'thorough' else None
+    for i_, (lens, settings) in enumerate(e2e_specs):
+        o = ob_add(rep, e2e_res[i_] if e2e_res else Q.q08s(env.ctx, lens, settings))
+        if o.result != 'sat':
+            continue
+        nat = {SEARCH_SMAP[k]: True for k, v in settings.items() if v}
+        for m in o.verdict.models:
+            cases = [[m['s%d_%d' % (i, j)] for j in range(n)] for i, n in enumerate(lens)]
+            bad, what, obs = replay_search(env, cases, nat)
+            key = 'search=%s,%s' % (canonical_shape(sorted(cases, key=lambda c: (len(c), c))), ','.join(sorted(nat)))
+            classify(rep, known, 'Q08s', key, what, {'inputs': {'search': cases, 'settings': nat}, 'observed': obs}, bad)
+    unit_only = 0
+    unit_res = par_map(env, [('q08u', (sk, settings, second), {}) for sk, settings, second in unit_specs]) if rep.tier == 'thorough' else None
+    for i_, (sk, settings, second) in enumerate(unit_specs):
+        o = ob_add(rep, unit_res[i_] if unit_res else Q.q08u(env.ctx, sk, settings, second))
+        if o.result != 'sat':
+            continue
+        nat = {SEARCH_SMAP[k]: True for k, v in settings.items() if v}
+        repro_here = 0
+        for m in o.verdict.models:
+            cases = [[m['x%d' % i] for i in w] for w in o.extra['cases_ix']]
+            cases = [list(t) for t in sorted(set(tuple(c) for c in cases), key=lambda c: (len(c), c))]
+            bad, what, obs = replay_search(env, cases, nat)
+            key = 'search=%s,%s' % (canonical_shape(cases), ','.join(sorted(nat)))
+            if bad:
+                repro_here += 1
+                classify(rep, known, 'Q08s', key, what, {'inputs': {'search': cases, 'settings': nat}, 'observed': obs}, True)
+            else:
+                unit_only += 1
+        if not repro_here:
+            # the unit contract is broken for this shape, but none of the enumerated counterexamples is reachable through build():
+            # the automaton stages never hand over such an expression for these test cases.  Not a violation of the property; undecided.
+            rep.nonrepro.append('%s: %d counterexample(s) of the unit contract, none reproduces through build() (the automaton stages do not '
+                                'produce an expression of this shape for those test cases)' % (o.qid, len(o.verdict.models)))
+    rep.info['unit_counterexamples_not_reachable_through_build'] = unit_only
+
+
+SK = {
+    'x|xx': ('A', [('L', 1), ('L', 2)]),
+    'xx?': ('C', ('L', 1), ('O', ('L', 1))),
+    'xx?|xx': ('A', [('C', ('L', 1), ('O', ('L', 1))), ('L', 2)]),
+    '(x|xx)x': ('C', ('A', [('L', 1), ('L', 2)]), ('L', 1)),
+    'x(x|xx)': ('C', ('L', 1), ('A', [('L', 1), ('L', 2)])),
+    'x(xx)?|(xx|x)x': ('A', [('C', ('L', 1), ('O', ('L', 2))), ('C', ('A', [('L', 2), ('L', 1)]), ('L', 1))]),
+    'x(xx)?|x?xx': ('A', [('C', ('L', 1), ('O', ('L', 2))), ('C', ('O', ('L', 1)), ('L', 2))]),
+}
+
+
 def check_c08(rep):
-    rep.statement = ('clause 1 only, for literal patterns: Display for RegExp on a literal AST of 1-2 alphanumeric code points under every '
-                     'combination of settings prints ^ first (after the flag group) exactly when the start anchor is not disabled and $ last '
-                     'exactly when the end anchor is not disabled, and nothing else around the literal.')
-    rep.outside = ['"searching a test case yields the whole test case": alternation order x leftmost-first semantics of the regex engine, the '
-                   'rotation / fallback loop of RegExp::from (calls Regex::new and find_iter)', 'non-literal ASTs']
+    rep.statement = ('clause 1 (anchors as requested): Display for RegExp on a literal AST of 1-2 alphanumeric code points under every combination of '
+                     'settings prints ^ first (after the flag group) exactly when the start anchor is not disabled and $ last exactly when the end '
+                     'anchor is not disabled; end to end (build() from MIR) for 2 test cases of 1-2 letters with one anchor disabled the right anchor '
+                     'is printed and the body still denotes exactly the test cases.  Clause 2 (search returns the whole test case): the printed '
+                     'pattern is parsed into an AST and searched with the leftmost-first semantics of a backtracking engine (alternatives left to '
+                     'right, greedy ? and {m,n}); (a) end to end for 2-3 test cases of 1-2 (3) letters with the end anchor or both anchors disabled '
+                     '-- RegExp::from including its self-check (Regex::new, find_iter().count(), find, rotation, both fall-backs) from MIR; (b) the '
+                     'self-check block as a unit: Dfa::from / Expression::from are replaced by stubs handing over ANY expression of a given shape '
+                     '(up to 7 letters, 4 words of <= 3 letters; %s) whose language is the set of test cases, the rest of RegExp::from and '
+                     'Display run from MIR, and every test case must be found in full.' % (
+                         '%d shapes' % len(SK) if rep.tier == 'quick' else 'every shape of the enumerated family'))
+    rep.outside = ['the regex crate itself (its documented leftmost-first semantics is modelled, on the syntax subset grex prints; every counterexample is '
+                   'replayed with the real Regex::find)', 'test cases outside a..z, verbose mode and syntax highlighting in the self-check (Regex::to_string / '
+                   'replace_all are not modelled)', 'expression shapes outside the enumerated family; more or longer test cases end to end']
+    rep.assumptions += ['unit obligations assume only that the expression handed over by the automaton stages denotes exactly the test cases (decided '
+                        'within its own bounds by C16 / C02); counterexamples are reported only if they reproduce through build()']
     env = Env(rep)
     known, _ = load_known()
     run_printer_obligations(rep, env, known, 'C08')
@@ -1547,6 +1752,26 @@ def check_c08(rep):
     if rep.tier == 'thorough':
         specs += [((2, 2), 'letters', {'no_start_anchor': True}), ((2, 2), 'letters', {'no_end_anchor': True}), ((1, 1), 'ascii', {'no_end_anchor': True})]
     run_text_obligations(rep, env, known, specs)
+    E, S, B = {'no_end_anchor': True}, {'no_start_anchor': True}, {'no_start_anchor': True, 'no_end_anchor': True}
+    e2e = [((1, 1), E), ((2, 1), E), ((2, 1), B), ((2, 1), S), ((2, 2), B)]
+    unit = [(SK['x|xx'], E, 'same'), (SK['xx?|xx'], E, 'same'), (SK['xx?|xx'], B, 'same'), (SK['xx?|xx'], B, 'literals'), (SK['x(xx)?|(xx|x)x'], E, 'same')]
+    if rep.tier == 'thorough':
+        e2e += [((2, 2), E), ((2, 2), S), ((2, 2, 1), E), ((2, 2, 1), B), ((3, 2), E), ((3, 2), B)]
+        fam = Q.skeleton_family(int(os.environ.get('VERIF_C08_FAMILY', '5')))
+        fam = [f for f in fam if len(set(len(w) for w in Q.skel_words(f)[0])) > 1]      # all words of one length: no word can be a prefix of another
+        unit = [(f, st_, 'same') for f in fam for st_ in (E, B)] + [(SK['x(xx)?|(xx|x)x'], st_, sec) for st_ in (E, B) for sec in ('same', 'literals')] + \
+               [(SK['x(xx)?|x?xx'], st_, 'same') for st_ in (E, B)] + [(SK['xx?|xx'], S, 'same'), (SK['xx?|xx'], B, 'literals')]
+    run_search_obligations(rep, env, known, e2e, unit)
+
+
+def replay_c08(env, rec):
+    if 'search' in rec['inputs']:
+        bad, what, _ = replay_search(env, rec['inputs']['search'], rec['inputs']['settings'])
+        return bad, what
+    if 'pipeline' in rec['inputs']:
+        bad, what, _ = replay_pipeline(env, rec['inputs']['pipeline'], rec['inputs']['settings'], rec['inputs'].get('clause', 'exact'))
+        return bad, what
+    return replay_c06(env, rec)
 
 
 def replay_c06(env, rec):
@@ -1704,7 +1929,8 @@ def check_c15(rep):
     # end to end on small inputs: the whole of build() with and without highlighting (incl. the colour-aware indentation)
     smap = {'verbose': 'verbose', 'capture': 'capture_groups', 'no_start_anchor': 'no_start_anchor', 'no_end_anchor': 'no_end_anchor',
             'ignore_case': 'ignore_case', 'repetitions': 'repetitions'}
-    tspecs = [((2, 1), {}), ((2, 1), {'verbose': True, 'ignore_case': True, 'no_start_anchor': True}), ((2, 1), {'verbose': True, 'capture': True})]
+    tspecs = [((2, 1), {}), ((2, 1), {'verbose': True, 'ignore_case': True, 'no_start_anchor': True}), ((2, 1), {'verbose': True, 'capture': True}),
+              ((2, 1), {'no_start_anchor': True, 'no_end_anchor': True})]
     if rep.tier == 'thorough':
         tspecs += [((2, 1), {'verbose': True}), ((2, 1), {'verbose': True, 'no_end_anchor': True}), ((2, 1), {'ignore_case': True}),
                    ((1, 1), {'verbose': True, 'ignore_case': True}), ((2, 2), {'verbose': True, 'no_start_anchor': True}), ((3,), {'repetitions': True, 'verbose': True})]
@@ -1795,7 +2021,7 @@ def replay_c15(env, rec):
 
 # --------------------------------------------------------------------------- driver
 CHECKS = {'C03': check_c03, 'C04': check_c04, 'C07': check_c07, 'C09': check_c09, 'C10': check_c10, 'C11': check_c11, 'C12': check_c12, 'C15': check_c15, 'C05': check_c05, 'C13': check_c13, 'C16': check_c16, 'C06': check_c06, 'C08': check_c08, 'C01': check_c01, 'C02': check_c02}
-REPLAYS = {'C03': replay_c03, 'C04': replay_c04, 'C07': replay_c07, 'C09': replay_c09, 'C10': replay_c10, 'C11': replay_c11, 'C12': replay_c12, 'C15': replay_c15, 'C05': replay_c05, 'C13': replay_c05, 'C16': replay_c16, 'C06': replay_c06, 'C08': replay_c06, 'C01': replay_c02, 'C02': replay_c02}
+REPLAYS = {'C03': replay_c03, 'C04': replay_c04, 'C07': replay_c07, 'C09': replay_c09, 'C10': replay_c10, 'C11': replay_c11, 'C12': replay_c12, 'C15': replay_c15, 'C05': replay_c05, 'C13': replay_c05, 'C16': replay_c16, 'C06': replay_c06, 'C08': replay_c08, 'C01': replay_c02, 'C02': replay_c02}
 
 
 def write_evidence(rep, exit_code):
